@@ -1,5 +1,6 @@
 (* C06 - a skipped field is invisible to exactly the traits of its skip group. *)
-From DW Require Import Proofs_laws Examples.
+From DW Require Import Proofs_laws Proofs_decl Examples.
+From Coq Require Import Permutation.
 Open Scope nat_scope.
 
 Definition all_traits := [Clone; Copy; Debug; Default; Eq; Hash; Ord; PartialEq; PartialOrd; Zeroize; ZeroizeOnDrop].
@@ -152,6 +153,46 @@ Check C06_no_trait_needed :
 Print Assumptions C06_no_trait_needed.
 
 (* Non-vacuity: in ex_enum field b of A is skipped for EqHashOrd: invisible to ==, visible to Debug and Clone. *)
+(* The markers as WRITTEN.  For every variant of an accepted enum and every field in it: the variant is
+   skipped for a trait iff some `skip_inner` option of some derive_where attribute on it is bare (and the
+   trait skippable) or names a group of that trait; a field likewise with `skip`.  The right-hand sides are
+   `existsb` over all options of all attributes, so the position of an option in its list, the order of the
+   attributes and their grouping into one or several attributes do not matter. *)
+Theorem C06_markers_as_written :
+  forall (c : cfg) (r : raw_item) (i : input) rvs disc id inc vs,
+    from_input c r = Ok i -> ri_kind r = KEnum rvs -> in_item i = IEnum disc id inc vs ->
+    Forall2 (variant_decl c) rvs vs.
+Proof. exact accepted_variants_declarative. Qed.
+
+Check C06_markers_as_written :
+  forall (c : cfg) (r : raw_item) (i : input) rvs disc id inc vs,
+    from_input c r = Ok i -> ri_kind r = KEnum rvs -> in_item i = IEnum disc id inc vs ->
+    Forall2 (variant_decl c) rvs vs.
+Print Assumptions C06_markers_as_written.
+
+Theorem C06_option_order_irrelevant :
+  forall (c : cfg) (dws : list dw) (v v' : raw_variant) (va va' : vattr),
+    Permutation (metas_of (rv_attrs v)) (metas_of (rv_attrs v')) ->
+    variant_attr_from_attrs c dws v = Ok va -> variant_attr_from_attrs c dws v' = Ok va' ->
+    va_incomparable va = va_incomparable va' /\ va_default va = va_default va' /\
+    forall t, trait_skipped (va_skip_inner va) t = trait_skipped (va_skip_inner va') t.
+Proof.
+  intros c dws v v' va va' HP H H'.
+  destruct (variant_attrs_declarative _ _ _ _ H) as [A [B C]]. destruct (variant_attrs_declarative _ _ _ _ H') as [A' [B' C']].
+  repeat split.
+  - rewrite A, A'. apply existsb_perm. exact HP.
+  - rewrite B, B'. apply existsb_perm. exact HP.
+  - intros t. rewrite C, C'. apply existsb_perm. exact HP.
+Qed.
+
+Check C06_option_order_irrelevant :
+  forall (c : cfg) (dws : list dw) (v v' : raw_variant) (va va' : vattr),
+    Permutation (metas_of (rv_attrs v)) (metas_of (rv_attrs v')) ->
+    variant_attr_from_attrs c dws v = Ok va -> variant_attr_from_attrs c dws v' = Ok va' ->
+    va_incomparable va = va_incomparable va' /\ va_default va = va_default va' /\
+    forall t, trait_skipped (va_skip_inner va) t = trait_skipped (va_skip_inner va') t.
+Print Assumptions C06_option_order_irrelevant.
+
 Example C06_nonvacuous :
   exists i d, from_input cfg_default ex_enum = Ok i /\ variant_of (in_item i) (mkValue 0 [1; 2]) = Some d /\
     agree_on_visible d PartialEq (mkValue 0 [1; 2]) (mkValue 0 [1; 7]) /\
@@ -167,4 +208,20 @@ Proof.
     + inversion Hf; subst f. vm_compute in Hv. discriminate.
     + destruct j; discriminate.
   - repeat split; reflexivity.
+Qed.
+
+(* Non-vacuity of the order theorem: `skip_inner(Debug), incomparable` in one attribute and the same two
+   options in the opposite order split over two attributes both parse, and to the same markers. *)
+Example C06_order_nonvacuous :
+  let dws := [mkDw [mkDT PartialEq None; mkDT Debug None] []] in
+  let m1 := M1Path (pid "incomparable") in
+  let m2 := M1List (pid "skip_inner") (Some [M2Path (pid "Debug")]) in
+  let v := mkRawVariant [FADw (SAList (Some [m2; m1]))] "A" RUnnamed [ufld ["T"] []] None in
+  let v' := mkRawVariant [FADw (SAList (Some [m1])); FADw (SAList (Some [m2]))] "A" RUnnamed [ufld ["T"] []] None in
+  exists va va', variant_attr_from_attrs cfg_default dws v = Ok va /\ variant_attr_from_attrs cfg_default dws v' = Ok va' /\
+                 va_incomparable va = true /\ trait_skipped (va_skip_inner va) Debug = true /\
+                 Permutation (metas_of (rv_attrs v)) (metas_of (rv_attrs v')).
+Proof.
+  cbv zeta. eexists; eexists. split; [vm_compute; reflexivity|]. split; [vm_compute; reflexivity|].
+  split; [reflexivity|]. split; [reflexivity|]. cbn. apply perm_swap.
 Qed.
